@@ -171,6 +171,11 @@ def build_inner(skeleton: str, a: Any, b: Any, c: Any, lo: int, hi: int, unbound
     if skeleton == "alt-empty":     # (a|){q} b
         u = retree.UnionExpr([retree.Concatenation([T(_ch(a), None)]), retree.Concatenation([])])
         return [T(retree.Group(u), q), T(_ch(b), None)]
+    if skeleton == "opt-prefix":    # b? a{q} c     (a branch directly in front of the repetition)
+        return [T(_ch(b), retree.Quantifier(False, 0, 1)), T(_ch(a), q), T(_ch(c), None)]
+    if skeleton == "alt-inside":    # (a b?){q}     (a branching operand)
+        u = retree.UnionExpr([retree.Concatenation([T(_ch(a), None), T(_ch(b), retree.Quantifier(False, 0, 1))])])
+        return [T(retree.Group(u), q)]
     if skeleton == "nested":        # (a{q} b)* c
         u = retree.UnionExpr([retree.Concatenation([T(_ch(a), q), T(_ch(b), None)])])
         return [T(retree.Group(u), retree.Quantifier(False, 0, None)), T(_ch(c), None)]
@@ -204,14 +209,14 @@ def check(skeleton: str, a: Any, b: Any, c: Any, lo: int, hi: int, unbounded: bo
     return "match" if expected else "no-match"
 
 
-SKELETONS = ["char", "set", "notset", "dot", "dot-star-tail", "alt", "alt-empty", "nested", "nested-nullable"]
+SKELETONS = ["char", "set", "notset", "dot", "dot-star-tail", "alt", "alt-empty", "opt-prefix", "alt-inside", "nested", "nested-nullable"]
 
 
 def make_harness(params: Dict[str, Any]):
     sk, shape_len, lo, hi, unbounded = params["skeleton"], params["probe_len"], params["lo"], params["hi"], params["unbounded"]
 
     used = {"char": 2, "set": 3, "notset": 3, "dot": 1, "dot-star-tail": 1, "alt": 3, "alt-empty": 2, "nested": 3,
-            "nested-nullable": 2}[sk]
+            "nested-nullable": 2, "opt-prefix": 3, "alt-inside": 2}[sk]
 
     def harness(a: int, b: int, c: int, probe: List[int]) -> Any:
         if used < 3:
@@ -225,8 +230,8 @@ def make_harness(params: Dict[str, Any]):
     return harness
 
 
-QUANTS_QUICK = [(1, 1, False), (0, 1, False), (0, 0, True), (1, 0, True), (0, 2, False), (2, 3, False), (2, 0, True)]
-QUANTS_THOROUGH = QUANTS_QUICK + [(0, 0, False), (1, 2, False), (1, 3, False), (3, 3, False), (3, 0, True), (0, 3, False)]
+QUANTS_QUICK = [(1, 1, False), (0, 1, False), (0, 0, True), (1, 0, True), (0, 2, False), (2, 3, False), (2, 0, True), (3, 0, True)]
+QUANTS_THOROUGH = QUANTS_QUICK + [(0, 0, False), (1, 2, False), (1, 3, False), (3, 3, False), (4, 0, True), (0, 3, False)]
 
 
 def shards(tier: str) -> List[Dict[str, Any]]:
@@ -429,7 +434,7 @@ def describe(tier: str) -> Dict[str, Any]:
                       "aas_core_codegen.intermediate.revm._relabel_in_place", "aas_core_codegen.intermediate.revm._remove_noop_in_place",
                       "aas_core_codegen.cpp.lib._generate_pattern._generate_program_definition_for_regex",
                       "aas_core_codegen.cpp.lib._generate_revm.generate_implementation"],
-        "bounds": f"9 anchored tree skeletons (literal, set, complemented set, dot, arbitrary-suffix optimisation, alternatives, "
+        "bounds": f"11 anchored tree skeletons (literal, set, complemented set, dot, arbitrary-suffix optimisation, alternatives, optional prefix before a repetition, repetition of a branching operand, "
                   f"empty alternative, nested groups, nested nullable group) x quantifiers "
                   f"{sorted({(x['params']['lo'], 'inf' if x['params']['unbounded'] else x['params']['hi']) for x in s}, key=str)}; code points symbolic over "
                   f"[0, 0x10FFFF] minus surrogates; probe strings of length 0..{max(x['params']['probe_len'] for x in s)} symbolic, no U+000A; "
